@@ -25,6 +25,11 @@ CLAIMED = {
     note=TB + "Hypothesis made explicit: every rank carries the same ProfilerStep names (the code counts steps in the global symbol table); C12_trim_no_steps states what happens otherwise.",
     technique="Lean 4 proof (fold invariants, membership/Nodup of the trimming join) + model/implementation correspondence",
     design="7/C12"),
+  "C16": dict(
+    text="Lean 4 theorems over a model composed from the C13 call-graph model: C16_roots_rule with minL_is_min (instances = matching rows at the shallowest depth at which the name occurs, with at least min_pattern_len kernels), C16_kernels_in_start_order (an instance's pattern is its name followed by the names of all device activities beneath it, sorted by start), C16_pattern_counts_exact (one row per distinct pattern; count = number of occurrences; CPU and GPU durations are sums over its instances), C16_order_desc (rows by descending count; ordering is a permutation). Tied to get_frequent_cuda_kernel_sequences(operator, out_dir, min_pattern_len, rank, top_k) for operator names and substrings occurring in the trace by a differential run and an independent Python oracle that rebuilds the tree from time containment and links.",
+    note=TB + "Conditional on C03/C13 (tree) and C02 (links). Kernels of one instance starting at the same microsecond may appear in either order; such patterns are compared with the tied names sorted. The secondary order by pattern string is Python's string order applied in the harness.",
+    technique="Lean 4 proof (group-by/filter lemmas, mergeSort order lemmas) + model/implementation correspondence",
+    design="7/C16"),
   "C17": dict(
     text="Lean 4 theorems: C17_rows_are_names (one row per name occurring in either trace, no others, no duplicates), C17_row_values (counts and total durations are those of the matching events; differences are test minus control), C17_classes_partition (for every row exactly one of the five ops_diff selections holds), C17_self_diff (a trace compared with itself: only unchanged, zero differences), C17_extract_exact (selection by iteration and device side is a pure filter). shorten_name is modelled and compared on every generated name. Tied to TraceDiff.compare_traces / ops_diff over rank subsets, iteration selections, device filters, long/short names, and self comparison (same object and separate objects) by a differential run and a Python oracle.",
     note=TB + "The iteration column of the parse-only frames is the model's input (C12 decides it). Row order of the table is not compared.",
